@@ -617,7 +617,16 @@ pub fn run_scenario(subject: &Subject, key_seed: u64, prefix: &[String]) -> Outc
     let prefix: Vec<String> = prefix.to_vec();
     match on_fresh_thread(key_seed, move || {
         for p in &prefix {
-            let _ = run_program(p, false);
+            match p.strip_prefix("@subject ") {
+                Some(j) => {
+                    if let Ok(v) = serde_json::from_str::<Value>(j) {
+                        let _ = run_subject(&Subject::from_json(&v));
+                    }
+                }
+                None => {
+                    let _ = run_program(p, false);
+                }
+            }
         }
         run_subject(&s)
     }) {
@@ -638,7 +647,16 @@ pub fn prefix_for(plan: &Plan, seed: u64, idx: usize, k: usize) -> Vec<String> {
     }
     let mut rng = Rng::new(derive_n(seed, "prefix", (idx as u64) << 16 | k as u64));
     let n = 1 + rng.below(3);
-    (0..n).map(|_| plan.prefix_pool[rng.below(plan.prefix_pool.len())].text.clone()).collect()
+    (0..n)
+        .map(|_| match rng.below(4) {
+            // the subject itself / its neighbours first, on the same thread: a thread-local or
+            // content-keyed memo answers a later, slightly different query from an earlier one
+            0 => format!("@subject {}", plan.subjects[idx].to_json()),
+            1 => format!("@subject {}", plan.subjects[(idx + 1) % plan.subjects.len()].to_json()),
+            2 => format!("@subject {}", plan.subjects[(idx + plan.subjects.len() - 1) % plan.subjects.len()].to_json()),
+            _ => plan.prefix_pool[rng.below(plan.prefix_pool.len())].text.clone(),
+        })
+        .collect()
 }
 
 /// The order in which a worker executes its runs: for every subject of its shard, seed 0 twice
